@@ -34,9 +34,27 @@ Theorem C19_dominant_coordinate_sign (n : nat) (A V : qmat RR) (lam : nat -> R) 
   unitary n V -> meq n n A (qmm n (qmm n V (qdiag (fun i => @qreal RR (lam i)))) (qherm V)) -> d < n -> (forall j, (0 < s j)%R) ->
   exists c : R, (0 < c)%R /\ coords n V (pseq n A s x0 k) d 0 = qmul (@qreal RR (c * lam d ^ k)%R) (coords n V x0 d 0).
 Proof. intros HV HA. exact (dominant_sign n A V lam HV HA s x0 k d). Qed.
+(* the Rayleigh quotient of any vector in the eigenbasis: x^H A x = sum lambda_i |c_i|^2 and x^H x = sum |c_i|^2 *)
+Theorem C19_rayleigh_in_eigenbasis (n : nat) (A V : qmat RR) (lam : nat -> R) (x : qmat RR) :
+  unitary n V -> meq n n A (qmm n (qmm n V (qdiag (fun i => @qreal RR (lam i)))) (qherm V)) ->
+  qmm n (qherm x) (qmm n A x) 0 0 = @qreal RR (@sumR RR n (fun i => (lam i * wt n V x i)%R)) /\
+  qmm n (qherm x) x 0 0 = @qreal RR (@sumR RR n (fun i => wt n V x i)).
+Proof. intros HV HA. split; [exact (quad_form n A V lam HV HA x)|exact (norm_form n V HV x)]. Qed.
+(* convergence of the estimate, with its rate: after k normalised steps from ANY start vector,
+   |x_k^H A x_k - lambda_d x_k^H x_k| |c_d(0)|^2 <= 2 |lambda_d| rho^(2k) (non-dominant start weight) x_k^H x_k
+   whenever |lambda_i| <= rho |lambda_d| for i <> d and rho <= 1 (gap ratio 0.8 in the property) *)
+Theorem C19_estimate_converges (n : nat) (A V : qmat RR) (lam : nat -> R) (s : nat -> R) (x0 : qmat RR) (k d : nat) (rho : R) :
+  unitary n V -> meq n n A (qmm n (qmm n V (qdiag (fun i => @qreal RR (lam i)))) (qherm V)) ->
+  d < n -> (0 <= rho)%R -> (forall i, i < n -> i <> d -> (Rabs (lam i) <= rho * Rabs (lam d))%R) -> (rho <= 1)%R ->
+  let xk := pseq n A s x0 k in
+  (Rabs (@sumR RR n (fun i => (lam i * wt n V xk i)%R) - lam d * @sumR RR n (wt n V xk)) * wt n V x0 d
+     <= 2 * Rabs (lam d) * rho ^ (2 * k)%nat * tailw n V x0 d * @sumR RR n (wt n V xk))%R.
+Proof. intros HV HA. exact (rayleigh_converges n A V lam HV HA s x0 k d rho). Qed.
 
 Print Assumptions C19_unit_vector.
 Print Assumptions C19_estimate_le_spectral_norm.
 Print Assumptions C19_coordinates_after_k_steps.
 Print Assumptions C19_nondominant_decay.
 Print Assumptions C19_dominant_coordinate_sign.
+Print Assumptions C19_rayleigh_in_eigenbasis.
+Print Assumptions C19_estimate_converges.
